@@ -22,10 +22,10 @@ Decision.  For sample points z0 = x + iy of the base rectangle and w0 = u + iv o
  * verdicts as everywhere in iv_fun_ops: the returned rectangle disjoint from the enclosure in the real or the imaginary
    part -> failing input (site iv.mpc.pow.contain); enclosure inside -> inside; otherwise undecided (retried at higher
    working precision, then counted).
- * branch cut: a base rectangle in the closed lower half-plane that touches the negative real axis ([xa,xb] + [ya,0]i, ya < 0,
-   xa < 0) contains points x < 0, y = 0 whose principal value (+pi) is not the limit from inside the rectangle; such sample
-   points are used only with the exact integer exponents.  Bases with imaginary part exactly [0, 0] (negative reals) are
-   decided with arg = +pi: that is the principal value and what the real-interval fallback documents.
+ * branch cut: points x < 0, y = 0 are decided with arg = +pi (the principal value; mpi_atan2 documents it for rectangles that
+   touch the negative real axis from below as well: it returns [-pi, pi] there since /repo c810f7f), exactly as the iv.log /
+   iv.arg decisions of iv_fun_ops do.  Bases with imaginary part exactly [0, 0] (negative reals, the real-interval fallback)
+   likewise.
 
 Every variant of the call is run: iv.mpc ** iv.mpc, libmpi.mpci_pow, iv.mpc ** iv.mpf (real exponent), iv.mpf ** iv.mpc and
 iv.mpf ** iv.mpf (real base: ComplexResult fallback), the reflected __rpow__ forms, and Python int / float / complex exponents.
@@ -34,9 +34,8 @@ import os, sys, random
 from fractions import Fraction
 sys.path.insert(0, os.path.dirname(os.path.abspath(__file__)))
 import iv_fun_ops as IVF
-from iv_fun_ops import (ZERO, ONE, NAN, fin, dsign, to_q, dcmp, dneg, dadd, dsub, dmul, dshift, dmag, dround_out,
+from iv_fun_ops import (ZERO, NAN, fin, dsign, to_q, dcmp, dneg, dadd, dsub, dmul, dshift, dmag, dround_out,
                         imul, iadd, isub, x_of_mpf, pair, Case, _int_of, encl1, atan2_encl, rand_man, gen_prec, sample_pts)
-from mpmath import iv
 from mpmath.libmp import fzero, finf, fninf, from_man_exp
 import mpmath.libmp.libmpi as LI
 
@@ -492,12 +491,8 @@ def points_cpow(r_unused, c):
         pts.append(b + r.choice(exps))
     for n in ints[:3]:
         pts.append(r.choice(bases) + (n, ZERO))
-    # closed lower half-plane touching the negative real axis: points ON the negative axis only with exact integer exponents
-    cut = dsign(yb) == 0 and dsign(ya) < 0 and dsign(xa) < 0
     out = []
     for t in pts:
-        if cut and dsign(t[1]) == 0 and dsign(t[0]) < 0 and exact_int_exponent(t[2], t[3]) is None:
-            continue
         if t not in out:
             out.append(t)
     if len(out) > 6:
